@@ -59,6 +59,14 @@ static void r_indexed2(Ctx& c)      { c.m(c.idx, c.idx) = c.r * c.p; }
 static void r_indexed2_scalar(Ctx& c){ c.m(c.idx, c.idx) = c.q; }
 // ---- reductions
 static void r_sum(Ctx& c)           { adouble x = sum(c.a * c.b); c.outs.push_back(x); }
+static void r_sum1(Ctx& c)          { adouble x = sum(c.a); c.outs.push_back(x); }
+static void r_product2(Ctx& c)      { adouble x = product(c.a * c.b); c.outs.push_back(x); }
+static void r_product3(Ctx& c)      { adouble x = product(c.a * c.b + c.a); c.outs.push_back(x); }
+static void r_mean2(Ctx& c)         { adouble x = mean(c.a * c.b); c.outs.push_back(x); }
+static void r_norm2_2(Ctx& c)       { adouble y = norm2(c.b - c.a); c.outs.push_back(y); }
+static void r_maxval2(Ctx& c)       { adouble z = maxval(c.a * c.b); adouble w = minval(c.b - c.a); c.outs.push_back(z); c.outs.push_back(w); }
+static void r_product_dim0_2(Ctx& c){ aVector r1 = product(c.m * c.m, 0); c.outv.link(r1); }
+static void r_norm2_dim1(Ctx& c)    { aVector r1 = norm2(c.m * c.p, 1); c.outv.link(r1); }
 static void r_product(Ctx& c)       { adouble x = product(c.a); c.outs.push_back(x); }
 static void r_mean(Ctx& c)          { adouble x = mean(c.a * c.p); c.outs.push_back(x); }
 static void r_norm2(Ctx& c)         { adouble y = norm2(c.b); c.outs.push_back(y); }
@@ -103,7 +111,9 @@ static Entry catalogue[] = {
   {"where", s_vec, r_where}, {"where_eo", s_vec, r_where_eo},
   {"indexed", s_indexed, r_indexed}, {"indexed_scalar", s_indexed, r_indexed_scalar},
   {"indexed2", s_indexed2, r_indexed2}, {"indexed2_scalar", s_indexed2, r_indexed2_scalar},
-  {"sum", none, r_sum}, {"product", none, r_product}, {"mean", none, r_mean}, {"norm2", none, r_norm2}, {"maxval", none, r_maxval},
+  {"sum", none, r_sum}, {"sum1", none, r_sum1}, {"product", none, r_product}, {"product2", none, r_product2}, {"product3", none, r_product3},
+  {"mean2", none, r_mean2}, {"norm2_2", none, r_norm2_2}, {"maxval2", none, r_maxval2},
+  {"product_dim0_2", s_mat2, r_product_dim0_2}, {"norm2_dim1", s_mat2, r_norm2_dim1}, {"mean", none, r_mean}, {"norm2", none, r_norm2}, {"maxval", none, r_maxval},
   {"sum_dim0", s_mat2, r_sum_dim0}, {"product_dim1", s_mat2, r_product_dim1}, {"mean_dim1", s_mat2, r_mean_dim1},
   {"dot", none, r_dot}, {"outer", none, r_outer}, {"spread", none, r_spread},
   {"diag_vector", s_outer, r_diag_vector}, {"diag_vector_p1", s_outer, r_diag_vector_m1},
